@@ -492,6 +492,10 @@ pub fn run(cfg: &Cfg, rep: &mut Rep) {
         // day-of-year formats
         let ylen = if cal::is_leap(y) { 366 } else { 365 };
         for (doy, what) in [(0i64, "day of year 0"), (ylen + 1, "day of year beyond the year"), (367, "day of year 367"), (999, "day of year 999")] {
+            // (the ISO 8601 ordinal spelling through the format-less parsers too: known to them or not, never an epoch)
+            check_out_of_range_text(rep, &format!("{:04}-{:03}", y, doy), None, what);
+            check_out_of_range_text(rep, &format!("{:04}-{:03}T10:20:30", y, doy), None, what);
+            check_out_of_range_text(rep, &format!("{:04}-{:03} TAI", y, doy), None, what);
             check_out_of_range_text(rep, &format!("{:04}-{:03}", y, doy), Some("%Y-%j"), what);
             check_out_of_range_text(rep, &format!("{:04}-{:03}T10:20:30", y, doy), Some("%Y-%jT%H:%M:%S"), what);
         }
@@ -558,6 +562,25 @@ pub fn run(cfg: &Cfg, rep: &mut Rep) {
                 } else if want == super::c08::Want::Accept {
                     rep.class("str/real-leap-second");
                     feed(rep, &format!("{:04}-{:02}-{:02}T23:59:60 UTC", y, m, d), "%Y-%m-%dT%H:%M:%S %T", "str/valid-iso", true);
+                }
+            }
+        }
+    }
+    // the minute in which a leap second can be inserted - 23:59 on 30 June and 31 December - of every year 1..=9999, with
+    // second 00, 59 and 60: whatever table decides about second 60 is consulted for every year, not only for those it lists
+    for y in 1..=9999i64 {
+        if (y as usize) % n != sh || cfg.fuzz || (y as usize / n) % stride != phase % stride {
+            continue;
+        }
+        for (m, d) in [(6u32, 30u32), (12, 31)] {
+            for sec in [0u32, 59, 60] {
+                let txt = format!("{:04}-{:02}-{:02}T23:59:{:02}", y, m, d, sec);
+                let (want, _) = super::c08::classify(&tab, y, m, d, 23, 59, sec, 0);
+                if want == super::c08::Want::Reject {
+                    check_out_of_range(rep, y, m, d, 23, 59, sec, ["", " UTC", " TAI", "Z"][(y % 4) as usize], "second 60 without a leap second");
+                } else {
+                    feed(rep, &txt, "%Y-%m-%dT%H:%M:%S", "str/leap-minute-of-every-year", true);
+                    feed(rep, &format!("{}, {:02} {} {:04} 23:59:{:02}", ["Mon", "Tue", "Wed", "Thu", "Fri", "Sat", "Sun"][(cal::days_from_1900(y, m, d).rem_euclid(7)) as usize], d, if m == 6 { "Jun" } else { "Dec" }, y, sec), "%a, %d %b %Y %H:%M:%S", "str/leap-minute-of-every-year", true);
                 }
             }
         }
